@@ -142,12 +142,15 @@ CLAIMS = {
              "sequence of assignments keeps zero column sums; _propagate_short_exp is the Taylor "
              "scheme around p -> (dt/ll) K p and sum(p) is conserved by one step exactly when the "
              "columns of K sum to zero; get_PropagationMatrix is guarded by is_subset_of, starts from "
-             "the identity, steps with S diag(exp(lambda*step)) S^-1 on the sub-axis step (TA on the "
-             "expression), recurs U_i = E U_{i-1} from 1, bridges a shifted start exactly once; the "
-             "initial populations are not mutated. Not decided: non-negativity and distance to expm.",
-        note=BASE_NOTE + "numpy.linalg.eig/inv semantics.",
-        technique="index-algebra interpretation of set_rate and of one expansion step, TA evaluation "
-                  "of the spectral-exponential expressions, ordering/pairing rules, alias rule",
+             "the identity, steps with the matrix exponential expm(K*step) of the sub-axis step - a form that "
+             "is defined for every rate matrix; a diagonalisation of K (not defined for defective rate "
+             "matrices such as a chain with equal rates) is reported - recurs U_i = E U_{i-1} from 1, bridges "
+             "a shifted start exactly once; the initial populations are not mutated. Not decided: "
+             "non-negativity for admissible steps and the truncation error of the Taylor steps.",
+        note=BASE_NOTE + "scipy.linalg.expm computes the matrix exponential.",
+        technique="index-algebra interpretation of set_rate and of one expansion step, provenance rule on "
+                  "the step exponentials (total matrix exponential, no diagonalisation), ordering/pairing "
+                  "rules, alias rule",
         design="3/C17"),
     "C05": dict(
         text="Static decision of the structural clauses of C05: (U1) package-wide who-may-call over "
